@@ -114,11 +114,10 @@ impl Http1Parser {
     pub fn parse_request(&self, data: &[u8]) -> Result<Option<Http1Request>, Http1ParseError> {
         let start_time = Instant::now();
 
-        let data_str = std::str::from_utf8(data).map_err(|_| Http1ParseError::InvalidUtf8)?;
-
-        if !data_str.contains("\r\n\r\n") && !data_str.contains("\n\n") {
+        // Only the head has to be text: whatever follows the blank line is an opaque body
+        let Some(data_str) = Self::head_str(data)? else {
             return Ok(None);
-        }
+        };
         let lines: Vec<&str> = if data_str.contains("\r\n") {
             data_str.split("\r\n").collect()
         } else {
@@ -206,11 +205,10 @@ impl Http1Parser {
     pub fn parse_response(&self, data: &[u8]) -> Result<Option<Http1Response>, Http1ParseError> {
         let start_time = Instant::now();
 
-        let data_str = std::str::from_utf8(data).map_err(|_| Http1ParseError::InvalidUtf8)?;
-
-        if !data_str.contains("\r\n\r\n") && !data_str.contains("\n\n") {
+        // Only the head has to be text: whatever follows the blank line is an opaque body
+        let Some(data_str) = Self::head_str(data)? else {
             return Ok(None);
-        }
+        };
         let lines: Vec<&str> = if data_str.contains("\r\n") {
             data_str.split("\r\n").collect()
         } else {
@@ -261,6 +259,33 @@ impl Http1Parser {
             raw_status_line: lines[0].to_string(),
             parsing_metadata: final_metadata,
         }))
+    }
+
+    /// The head of the message (start line and header lines up to and including the blank line)
+    /// as text, or `None` while the blank line has not been received.
+    fn head_str(data: &[u8]) -> Result<Option<&str>, Http1ParseError> {
+        let crlf_end = data
+            .windows(4)
+            .position(|w| w == b"\r\n\r\n")
+            .map(|i| i.saturating_add(4));
+        let lf_end = data
+            .windows(2)
+            .position(|w| w == b"\n\n")
+            .map(|i| i.saturating_add(2));
+        let end = match (crlf_end, lf_end) {
+            (Some(a), Some(b)) => a.min(b),
+            (Some(a), None) => a,
+            (None, Some(b)) => b,
+            (None, None) => {
+                // incomplete head: keep reporting undecodable input as before
+                std::str::from_utf8(data).map_err(|_| Http1ParseError::InvalidUtf8)?;
+                return Ok(None);
+            }
+        };
+        let head = data.get(..end).unwrap_or(data);
+        std::str::from_utf8(head)
+            .map(Some)
+            .map_err(|_| Http1ParseError::InvalidUtf8)
     }
 
     fn parse_request_line(
